@@ -166,12 +166,21 @@ pub(crate) fn map_remove(mut args: ArgumentResult, visitor: &mut Visitor) -> Sas
 }
 
 pub(crate) fn map_set(mut args: ArgumentResult, visitor: &mut Visitor) -> SassResult<Value> {
-    let key_position = args.len().saturating_sub(2);
-    let value_position = args.len().saturating_sub(1);
+    // taken before any argument is looked up: a named argument is consumed by the lookup
+    let arity = args.len();
+    let key_position = arity.saturating_sub(2);
+    let value_position = arity.saturating_sub(1);
 
     let mut map = args
         .get_err(0, "map")?
         .assert_map_with_name("map", args.span())?;
+
+    // `$map, $args...`: the rest must hold at least a key and a value
+    match arity {
+        1 => return Err(("Expected $args to contain a key.", args.span()).into()),
+        2 => return Err(("Expected $args to contain a value.", args.span()).into()),
+        _ => {}
+    }
 
     let key = Spanned {
         node: args.get_err(key_position, "key")?,
